@@ -12,6 +12,7 @@ use jrpc_harness::common::*;
 use jrpc_harness::subs_env::*;
 
 fn main() {
+	install_quiet_panic_hook();
 	let a = args();
 	let mut out = Out::new();
 	let pf = Profile { check_c06: false, check_c04: true, w_accept: 9, w_send: 8, w_ret: 3, w_wstep: 7, typed_ids: 2, reuse_ids: 0, w_burst: 4, tail: false };
